@@ -152,10 +152,10 @@ def L3():
 
 def L3q():
     """pairs of depth-1 compounds (no bare leaves, no fault/call) at function level and inside a while body"""
-    items = [s for s in cfgen.shapes(1) if s[0] not in cfgen.LEAF_KINDS and not cfgen.has_kind(s, ("fault", "call", "store", "defcall"))]
+    items = [s for s in cfgen.shapes(1) if s[0] not in cfgen.LEAF_KINDS and not cfgen.has_kind(s, ("fault", "call", "store", "defcall", "tplain"))]
     for a, b in itertools.product(items, items):
         yield ("fn", ("seq", a, b))
-    litems = [s for s in cfgen.shapes(1, True) if s[0] not in cfgen.LEAF_KINDS and not cfgen.has_kind(s, ("fault", "call", "return", "store", "defcall"))]
+    litems = [s for s in cfgen.shapes(1, True) if s[0] not in cfgen.LEAF_KINDS and not cfgen.has_kind(s, ("fault", "call", "return", "store", "defcall", "tplain"))]
     for a, b in itertools.product(litems, litems):
         yield ("fn", ("while", 2, ("seq", a, b)))
 
@@ -312,7 +312,7 @@ class C01(Check):
                     ("Lm-lexical-transformations-of-the-generated-corpus", self.meta_cases(tier)),
                     ("Lp-depth<=1-single-deviation-minimal-parentheses", L1(1, ("fn~min",))),
                     ("L2-spines<=4", L2(4)), ("L3q-pairs-of-compounds", L3q()),
-                    ("L1-depth<=2-single-deviation(no call/store/defcall leaves)", L1(2, skip=("call", "store", "defcall"), core_conds_beyond_depth1=True))]
+                    ("L1-depth<=2-single-deviation(no call/store/defcall leaves)", L1(2, skip=("call", "store", "defcall", "tplain"), core_conds_beyond_depth1=True))]
         return [("L0-depth<=3-default", L0(3)), ("L0b-depth<=2-module+recursion", L0b()),
                 ("Li-identifier-spellings", [("ident", r, n) for n in ident_names() for r in IDENT_ROLES]),
                 ("Ls-statement-forms", [("form", k) for k in STATEMENT_FORMS]),
@@ -452,7 +452,7 @@ class C01(Check):
 
     def finish(self, stats, tier):
         errs = []
-        for t in ["store", "defcall", "break", "continue", "return", "fault-div", "fault-assert" if tier == "thorough" else "fault-div", "elif",
+        for t in ["store", "defcall", "tplain", "break", "continue", "return", "fault-div", "fault-assert" if tier == "thorough" else "fault-div", "elif",
                   "while", "from", "fn~min", "ident", "form", "meta-crlf", "meta-comments", "meta-spaced", "collide@nested", "collide@top", "anon@nested", "step", "step-expr", "step-call", "bounds-expr", "through", "module", "rec"]:
             if not stats["tags"].get(t):
                 errs.append(f"vacuity: construct {t} never explored")
